@@ -105,7 +105,7 @@ class Calls:
         if c is not None and ex.depth > 0:
             return c.apply(ex, args, kwargs)
         if 'contextmanager' in fi.decorators:
-            raise Unsupported('context manager called outside with')
+            return ('contextmanager', fi, None, list(args), kwargs)
         return self.inline(ex, fi, args, kwargs, None)
 
     def bind(self, ex, fi, args, kwargs, env):
@@ -199,8 +199,21 @@ class Calls:
     def construct(self, ex, cname, args, kwargs):
         ci = self.src.classes[cname]
         shapes = self.engine.shapes
-        if cname in L.EXC_ID or 'Exception' in ' '.join(ci.bases):
-            return L.OpaqueV(L.OK['instance'], ex.fresh_int('excinst'))
+        if cname in L.EXC_ID or 'Exception' in ' '.join(ci.bases) or 'Error' in ' '.join(ci.bases):
+            if cname not in L.EXC_ID:
+                L.register_exception(cname, ci.bases[0].split('.')[-1] if ci.bases else 'BaseException')
+            inst = L.OpaqueV(L.OK['instance'], ex.fresh_int('excinst'))
+            ex.exc_instances[inst.get_id()] = L.EXC_ID[cname]
+            init = self.src.find_method(cname, '__init__')
+            if init is not None:
+                iref = ex.alloc()
+                ex.assume(L.cls_of(iref) == shapes.cid(cname))
+                ex.note_class(iref, cname, exact=True)
+                try:
+                    self.inline(ex, init, [L.ObjV(iref)] + list(args), kwargs, None)
+                except Unsupported:
+                    pass
+            return inst
         # a package class derived from an external class (custom_types.Decimal): its own __new__/__init__
         # if it defines one, else the external constructor
         ext_base = None
@@ -264,6 +277,9 @@ class Calls:
             for name in names:
                 ex.set_field(ref, name, vals[name], fresh_obj=True)
             ex.event('construct', cname, ref, vals)
+            post = self.src.find_method(cname, '__post_init__')
+            if post is not None:
+                self.call_package(ex, post, [obj], {})
             return obj
         init = self.src.find_method(cname, '__init__')
         if init is None:
